@@ -226,6 +226,13 @@ func VerifC06Apply() {
 			vsymAssert(a.Name == verifRenameTo, "a MailboxUpdated for a known mailbox renames it to exactly the announced name")
 		}
 	}
+	// whatever the update says, the recovery mailbox keeps its identity and is never filled by the connector
+	if rec := d.BoxByID(u.recoveryMailboxID); rec != nil {
+		vsymAssert(rec.Name == ids.GluonRecoveryMailboxName && rec.Remote == ids.GluonInternalRecoveryMailboxRemoteID, "the recovery mailbox keeps its name and remote id whatever the connector sends")
+		vsymAssert(len(rec.Rows) == 0, "the connector cannot put messages into the recovery mailbox")
+	} else {
+		vsymAssert(false, "the recovery mailbox cannot be deleted by the connector")
+	}
 	// every message row reachable from a mailbox has its bytes in the store (or can be re-downloaded: has a remote id)
 	for _, b := range d.Boxes {
 		for _, r := range b.Rows {
